@@ -833,6 +833,16 @@ def evalE : Nat → FE → Ctx → St → Res V
         | .ok vb σ2 => .ok (.bool (va == vb && va != .nan)) σ2
         | r => r
       | r => r
+    | .cond t a b =>
+      -- §11.12: GetValue of the chosen branch – the result is a value, never a Reference
+      match evalE n t c σ with
+      | .ok tv σ1 => if truthy tv then evalE n a c σ1 else evalE n b c σ1
+      | r => r
+    | .delX e1 =>
+      -- §11.4.1 step 2: the operand is not a Reference (the driver only admits conditionals and (0, e) here)
+      match evalE n e1 c σ with
+      | .ok _ σ1 => .ok (.bool true) σ1
+      | r => r
     | .not a =>
       match evalE n a c σ with
       | .ok va σ1 => .ok (.bool (!truthy va)) σ1
